@@ -83,7 +83,7 @@ al(s(N), X) :- X = Y, al(N, Y).
 # (a single clause with 70 goals cannot be loaded: the generated code nests one block per goal and CPython allows 20)
 # queries whose answers (for their LAST argument) are known by construction, independently of any enumeration
 KNOWN = {'many': ['done'], 'al': ['red', 'green', 'blue'], 'fin': ['a', 'b', ('f', ['c']), ('f', ['d'])], 'viacut': ['a', 'z']}
-DYN_QUERIES = ('dl', 'dgrow', 'dkeep', 'dkeep2', 'dret', 'colour', 'dcol')
+DYN_QUERIES = ('dl', 'dgrow', 'dkeep', 'dkeep2', 'dret', 'colour', 'dcol', 'own')
 _LIB = None
 
 
@@ -122,7 +122,9 @@ def gen(seed, tier):
             # the database at depth: dynamic facts looked up, asserted and retracted where the limit strikes
             q = rng.choice([['dl', [lst(n), ['a', 'red']]], ['dl', [lst(n), ['a', 'red']]], ['dl', [lst(n), V(0)]], ['dgrow', [['a', 'z']]], ['dkeep', [lst(max(n, 20))]],
                             ['dkeep2', [lst(n), V(0)]], ['dret', [lst(n), ['a', 'green']]],
-                            ['colour', [['a', 'red']]], ['dcol', [['a', 'red']]], ['colour', [V(0)]]])
+                            ['colour', [['a', 'red']]], ['dcol', [['a', 'red']]], ['colour', [V(0)]],
+                            # a dynamic fact whose first argument binds a query variable and whose second is long enough to overflow
+                            ['own', [V(0), V(1)]], ['own', [V(0), V(1)]], ['own', [V(0), lst(70)]]])
         world = None
     else:
         world = progs.gen_world(rng, rich=rng.random() < 0.6, natives=False, max_depth=2)
@@ -189,6 +191,9 @@ def _execute(plan):
     if dyn:
         for c_ in ('red', 'green', 'blue', 'red'):
             yp.assert_fact(yp.atom('colour'), [yp.atom(c_)])
+        yp.assert_fact(yp.atom('own'), [yp.atom('ann'), TM.build(yp, TM.T(lst(3)), {})])
+        yp.assert_fact(yp.atom('own'), [yp.atom('tom'), TM.build(yp, TM.T(lst(70)), {})])
+        yp.assert_fact(yp.atom('own'), [yp.functor('f', [yp.atom('x')]), TM.build(yp, TM.T(lst(40)), {})])
         log.count('database_at_depth_worlds')
     counter = [0]
     for i_ in (1, 2):
